@@ -165,6 +165,107 @@ def is_qname_decl(xe: Any) -> bool:
         return False
 
 
+# ---------------------------------------------------------------------------------------------------
+# generated path forms.  A path is {'abs': bool, 'steps': [[axis, name, pos], ...]}: axis 'child' | 'desc'
+# (`/name` | `//name`), name = an expanded element name or '*', pos = None | k (predicate [k]).  An absolute
+# path starts at the document node (its first child step names the root element), a relative one at the root
+# element (a leading descendant step is written `.//name`).
+
+def spell_path(P: dict, form: str, tns: bool) -> tuple[str, Optional[dict]]:
+    out = ''
+    for i, (axis, name, pos) in enumerate(P['steps']):
+        if name == '*' or form == 'clark' or not tns or not name.startswith('{'):
+            s_ = name
+        elif form == 'prefix':
+            s_ = 'w0:' + local(name)
+        else:
+            s_ = local(name)
+        if pos is not None:
+            s_ += f'[{pos}]'
+        sep = '/' if axis == 'child' else '//'
+        if i == 0 and not P['abs']:
+            sep = '' if axis == 'child' else './/'
+        out += sep + s_
+    ns = None
+    if tns and form == 'prefix':
+        ns = {'w0': L.TNS}
+    elif tns and form == 'default':
+        ns = {'': L.TNS}
+    return out, ns
+
+
+def sel_eval(tree: dict, P: dict) -> list[int]:
+    """the elements the path denotes (XPath reading of child / descendant-or-self::node()/child steps with a
+    positional predicate per context node), as preorder ids in document order — independent of elementpath"""
+    DOC = {'id': -1, 'tag': None, 'cs': [tree]}
+    cur = [DOC if P['abs'] else tree]
+
+    def dos(n: dict, out: list) -> list:
+        out.append(n)
+        for c in n['cs']:
+            dos(c, out)
+        return out
+    for axis, name, pos in P['steps']:
+        nxt: dict[int, dict] = {}
+        for c in cur:
+            for d in (dos(c, []) if axis == 'desc' else [c]):
+                kids = [k for k in d['cs'] if name == '*' or k['tag'] == name]
+                if pos is not None:
+                    kids = kids[pos - 1:pos]
+                for k in kids:
+                    nxt[k['id']] = k
+        cur = [nxt[i] for i in sorted(nxt)]
+    return [n['id'] for n in cur]
+
+
+def abs_schema_path(root_tag: str, path: str) -> str:
+    """xml_loader.py:207-215 get_absolute_path(path) for a path that is given"""
+    return path if path.startswith('/') else f'/{root_tag}/{path}'
+
+
+def port_get_element(schema: Any, tag: str, path: str, namespaces: Any) -> Any:
+    """schemas.py:946-963 get_element as it is specified by its three fall-backs, on top of `schema.find` (the XPath
+    machinery, finding C20-F1 lives there) — NOT a call of get_element: this is the reference the real lookup of a
+    path-driven run is judged against"""
+    from xmlschema.validators import XsdElement
+    if not path or path == tag or path == f'/{tag}':
+        return schema.maps.elements.get(tag)
+    if path[-1] == '*':
+        d = schema.find(path[:-1] + tag, namespaces)
+        return d if isinstance(d, XsdElement) else schema.maps.elements.get(tag)
+    d = schema.find(path, namespaces)
+    if not isinstance(d, XsdElement):
+        return None
+    if d.name != tag:
+        return schema.maps.elements.get(tag)
+    return d
+
+
+def gov_equal(d: Any, g: Any) -> bool:
+    from xmlschema.validators import XsdElement
+    return d is g or (isinstance(d, XsdElement) and g is not None and d.name == g.name and d.type is g.type)
+
+
+def errors_as(eg: Any, elem: Any, xsd_element: Any, namespaces: Any) -> list:
+    """(path, error) of the path-driven loop for one selected element validated against `xsd_element`
+    (schemas.py:1364-1385 as it is now: context at level 1 on the document, the element's own declarations
+    pushed, XsdElement.raw_decode); fresh context: no document-wide tables"""
+    from xmlschema.namespaces import NamespaceMapper
+    from xmlschema.validators.validation import ValidationContext
+    from xmlschema.validators.exceptions import XMLSchemaStopValidation
+    context = ValidationContext(source=eg.res, converter=NamespaceMapper(namespaces, source=eg.res), level=1,
+                                check_identities=True, use_defaults=True)
+    context.converter.set_xmlns_context(elem, context.level)
+    try:
+        xsd_element.raw_decode(elem, 'lax', context)
+    except XMLSchemaStopValidation:
+        pass
+    return [(C6.bare_path(e.path), C6.canon_err(e)) for e in context.errors]
+
+
+NOT_FOUND_RE = re.compile(r"global component .* not found")
+
+
 def known_match(case: dict, detail: dict) -> Optional[str]:
     kind = detail.get('kind')
     if kind == 'find':
@@ -173,14 +274,31 @@ def known_match(case: dict, detail: dict) -> Optional[str]:
         if detail.get('non_plain_step') or detail.get('predicate_meets_wildcard'):
             return 'C20-F1'
         return None
+    if kind == 'get_element':
+        # the lookup of the path-driven runs: also its fall-back rule applied to schema.find (port_get_element) does
+        # not give the governing declaration, and the path has a step that is not a plain named child
+        if detail.get('port_governing') is False and (detail.get('non_plain_step') or detail.get('predicate_meets_wildcard')):
+            return 'C20-F1'
+        return None
     # (an AttributeError of path= validation with a wildcard on an ancestor level was finding C20-F2, fixed by d54abee:
     #  no rule, any exception of partial validation is a failure)
     if kind == 'partial':
-        return 'C20-F1' if detail.get('non_plain_step') or detail.get('predicate_meets_wildcard') else None
+        # some selected elements are looked up (fall-back rule on schema.find, not the real get_element) to another
+        # declaration than the governing one - each for a listed reason - and the result is exactly the one
+        # predicted with those declarations (the other selected elements agree with the full result)
+        reasons = detail.get('reasons') or []
+        if not reasons or not detail.get('as_predicted') or any(r is None for r in reasons):
+            return None
+        return 'C20-F4' if 'F4' in reasons else 'C20-F1'
     if kind == 'partial-scope':
         # what remains of C20-F3 after c3a1309: a prefix used by an xsi:type inside the selected part is bound by an
         # element strictly between the root and the selected element; outside such elements the results agree
         return 'C20-F3' if detail.get('unscoped_type_nodes') and detail.get('same_outside') else None
+    if kind == 'selection':
+        # C20-F5: split_path drops every './' - a relative descendant path './/x' is read as '/x' and selects nothing
+        if case.get('path', '').startswith('.//') and detail.get('real') == [] and detail.get('denoted'):
+            return 'C20-F5'
+        return None
     return None
 
 
@@ -232,6 +350,33 @@ def check_find(ctx: Ctx, spec, doc: Doc, reqs: list, pend: list, base: dict) -> 
                         ctx.known_hit(fid)
                     else:
                         ctx.failure('schema.find(path of the element) is not the declaration that governs the element', case, detail)
+                # the lookup used by the path-driven runs (find + the fall-backs of get_element) in the same spelling
+                if depth >= 1:
+                    case_g = dict(case, api='get_element', tag=node['tag'])
+                    try:
+                        ge = schema.get_element(node['tag'], path, ns)
+                    except Exception as ex:  # noqa
+                        ctx.failure('schema.get_element raised on an instance path', case_g, repr(ex))
+                        continue
+                    ctx.case(case_g, True, 'api:get_element')
+                    if gov_equal(ge, g):
+                        ctx.count('get_element:governing')
+                    else:
+                        ctx.count('get_element:other')
+                        pg_ = port_get_element(schema, node['tag'], path, ns)
+                        pred_wild = positions and any(
+                            doc.position(i)[0] > 1 and eg.gov.get(eg.parent[i]) is not None and
+                            any(isinstance(c, XsdAnyElement) and c.is_matching(eg.node[i]['tag']) for c in eg.gov[eg.parent[i]])
+                            for i in doc.chain(nid)[1:])
+                        detail = {'kind': 'get_element', 'found': repr(ge), 'governing': repr(g),
+                                  'by the fall-back rule on schema.find': repr(pg_), 'port_governing': gov_equal(pg_, g),
+                                  'non_plain_step': not allp, 'predicate_meets_wildcard': pred_wild}
+                        fid = known_match(case_g, detail)
+                        if fid:
+                            ctx.known_hit(fid)
+                        else:
+                            ctx.failure('schema.get_element(tag, path of the element) is not the declaration that governs '
+                                        'the element', case_g, detail)
         # model: findall on the Clark path without positions
         path, _ = doc.spell(nid, 'clark', False)
         steps = [eg.node[i]['tag'] for i in doc.chain(nid)]
@@ -251,38 +396,76 @@ def check_find(ctx: Ctx, spec, doc: Doc, reqs: list, pend: list, base: dict) -> 
             pend.append(('get_element', dict(base, api='get_element', tag=tag, path=path), None if r2 is None else gid.get(id(r2), -1), None))
 
 
-def expected_part(eg: C6.Eager, selected: list[int]) -> list:
+def truth_part(eg: C6.Eager, selected: list[int]) -> list:
+    """the matching part of the full result for a selection: the errors owned inside each selected element, element
+    by element in document order (a nested selection repeats the inner part) — (path, error, owner)"""
     out = []
-    for i, o in enumerate(eg.owner):
-        if any(eg.in_subtree(o, s) for s in selected):
-            out.append(eg.canon[i])
-    return non_stateful(out)
+    for s_ in selected:
+        for i, o in enumerate(eg.owner):
+            if eg.in_subtree(o, s_):
+                out.append((C6.bare_path(eg.paths[i]), eg.canon[i], o))
+    return out
 
 
-def check_partial(ctx: Ctx, spec, doc: Doc, xml: bytes, reqs: list, pend: list, base: dict) -> None:
-    from xmlschema.validators import XsdAnyElement
-    from xmlschema import XMLResource
-    eg, schema = doc.eg, doc.schema
-    depth_max = max(eg.depth.values())
-    static_of, created_of = C6.static_lookup(schema, eg)
-    ns = {'': L.TNS} if spec.tns else None
+def expected_part(eg: C6.Eager, selected: list[int]) -> list:
+    return non_stateful([x[1] for x in truth_part(eg, selected)])
 
-    last_paths: list = []
 
-    def run(path: str, namespaces) -> Any:
-        errs = list(schema.iter_errors(XMLResource(xml), path=path, namespaces=namespaces))
-        last_paths[:] = [C6.norm_path(e.path) for e in errs]
-        return [C6.canon_err(e) for e in errs]
+def forms_for(doc: Doc, nid: int) -> list:
+    """the generated spellings of the ways to select element `nid` (depth >= 1) by a path"""
+    chain = doc.chain(nid)
+    tags = [doc.eg.node[i]['tag'] for i in chain]
+    pos = [doc.position(i) for i in chain]
+    k = len(chain) - 1
 
-    from xmlschema.utils.etree import etree_getpath
-    scope = L.in_scope(eg.tree)
-    root_scope = dict(scope[0])
+    def st(i: int, withpos: bool) -> list:
+        return ['child', tags[i], pos[i][0] if withpos and pos[i][1] > 1 else None]
+    star = ['child', '*', None]
+    forms = [('abs', {'abs': True, 'steps': [st(i, False) for i in range(k + 1)]}),
+             ('abs-pos', {'abs': True, 'steps': [st(i, True) for i in range(k + 1)]}),
+             ('rel', {'abs': False, 'steps': [st(i, False) for i in range(1, k + 1)]}),
+             ('rel-pos', {'abs': False, 'steps': [st(i, True) for i in range(1, k + 1)]}),
+             ('desc', {'abs': True, 'steps': [['desc', tags[k], None]]}),
+             ('dot-desc', {'abs': False, 'steps': [['desc', tags[k], None]]}),
+             ('root-desc', {'abs': True, 'steps': [st(0, False), ['desc', tags[k], None]]}),
+             ('parent-star', {'abs': True, 'steps': [st(i, False) for i in range(k)] + [star]})]
+    if pos[k][1] > 1:
+        forms.append(('last-pos', {'abs': True, 'steps': [st(i, False) for i in range(k)] + [st(k, True)]}))
+    if k >= 2:
+        forms.append(('child-desc', {'abs': False, 'steps': [st(1, False), ['desc', tags[k], None]]}))
+        forms.append(('star-name', {'abs': False, 'steps': [star] * (k - 1) + [st(k, False)]}))
+    return forms
 
-    def unscoped(selected: list) -> list:
+
+class Partial:
+    """path-driven validation / decoding of one document against the matching part of its full result"""
+
+    def __init__(self, ctx: Ctx, spec, doc: Doc, xml: bytes, base: dict):
+        from xmlschema.utils.etree import etree_getpath
+        self.ctx, self.spec, self.doc, self.xml, self.base = ctx, spec, doc, xml, base
+        self.eg, self.schema = doc.eg, doc.schema
+        self.scope = L.in_scope(self.eg.tree)
+        self.root_scope = dict(self.scope[0])
+        self.getpath = etree_getpath
+        self.full_data: Any = None
+        self.full_done = False
+
+    # ---- the real runs
+    def run(self, path: str, namespaces: Any) -> list:
+        from xmlschema import XMLResource
+        errs = list(self.schema.iter_errors(XMLResource(self.xml), path=path, namespaces=namespaces))
+        return [(C6.bare_path(e.path), C6.canon_err(e)) for e in errs]
+
+    def selection(self, path: str, namespaces: Any) -> list[int]:
+        return [self.eg.ids.get(id(e), -1) for e in self.eg.res.iterfind(path, namespaces)]
+
+    # ---- finding C20-F3 (what remains of it)
+    def unscoped(self, selected: list) -> list:
         """elements inside the selected parts whose xsi:type / QName prefix is resolved differently by the path-driven run:
         that run knows the declarations of the root (namespace map of the resource), of the selected element itself
         (schemas.py:1374-1376, commit c3a1309) and of the elements below it (pushed by their parent groups), but
         not those of the elements strictly between the root and the selected element"""
+        eg, doc = self.eg, self.doc
         out = []
         for s_ in selected:
             for i, d, _, n in eg.flat:
@@ -296,142 +479,168 @@ def check_partial(ctx: Ctx, spec, doc: Doc, xml: bytes, reqs: list, pend: list, 
                     used.append(eg.elem[i].text.strip())
                 if not used:
                     continue
-                seen = dict(root_scope)
+                seen = dict(self.root_scope)
                 for j in doc.chain(i)[len(doc.chain(s_)) - 1:]:
                     for p_, u_ in eg.node[j]['decls']:
                         seen[p_] = u_
                 for v in used:
                     pfx = v.split(':')[0] if ':' in v else ''
-                    if seen.get(pfx) != scope[i].get(pfx):
-                        out.append(i)
+                    if seen.get(pfx) != self.scope[i].get(pfx):
+                        out.append((i, s_))
                         break
         return out
 
-    def f3_explains(selected: list, got: list) -> Optional[dict]:
-        """C20-F3 (what remains): outside the elements found by `unscoped` the errors agree"""
-        hit = unscoped(selected)
-        if not hit:
+    def f3_explains(self, selected: list, got: list, pred: list) -> Optional[dict]:
+        """C20-F3 (what remains): outside the elements found by `unscoped` the errors agree.  Since 13aae48 the
+        unresolvable xsi:type of a CHILD is also reported by the parent's group (groups.py:1024-1027) at the parent:
+        one "global component … not found" at the parent of such an element (when the parent is inside the part) is
+        part of the same defect."""
+        eg = self.eg
+        pairs = self.unscoped(selected)
+        if not pairs:
             return None
-        bare = lambda q: re.sub(r'\{[^}]*\}', '', q or '')  # noqa
-        prefixes = [bare(C6.norm_path(etree_getpath(eg.elem[i], eg.res.root, None, False, True))) for i in hit]
-        inside = lambda q: any(bare(q) == pf or bare(q).startswith(pf + '/') for pf in prefixes)  # noqa
-        a = [c for q, c in zip(last_paths, got) if not inside(q)]
-        b = [eg.canon[i] for i, o in enumerate(eg.owner)
-             if any(eg.in_subtree(o, s_) for s_ in selected) and not any(eg.in_subtree(o, h) for h in hit)]
+        hit = sorted({i for i, _ in pairs})
+        pth = lambda i: C6.bare_path(self.getpath(eg.elem[i], eg.res.root, None, False, True))  # noqa
+        prefixes = [pth(i) for i in hit]
+        inside = lambda q: any(q == pf or (q or '').startswith(pf + '/') for pf in prefixes)  # noqa
+        a = [(q, c) for q, c in got if not inside(q)]
+        # the parent's report of a child's unresolvable xsi:type (one per unscoped child that is not the selected element)
+        for i, s_ in pairs:
+            if i == s_ or XSI_TYPE not in eg.elem[i].attrib:
+                continue
+            pp = pth(eg.parent[i])
+            for n_, (q, c) in enumerate(a):
+                if q == pp and NOT_FOUND_RE.search(c[1]):
+                    del a[n_]
+                    break
+        b = [(q, c) for q, c, o in pred
+             if not (any(eg.in_subtree(o, h) for h in hit) if o is not None else inside(q))]
         return {'kind': 'partial-scope', 'unscoped_type_nodes': hit,
-                'same_outside': sorted(non_stateful(a)) == sorted(non_stateful(b)), 'got': got}
+                'same_outside': sorted(non_stateful([c for _, c in a])) == sorted(non_stateful([c for _, c in b])),
+                'got': [c for _, c in got]}
 
-    def wildcard_on_levels(nids: list[int]) -> bool:
-        for i in nids:
-            for a in doc.chain(i)[:-1]:
-                g = eg.gov.get(a)
-                if g is not None and any(isinstance(c, XsdAnyElement) for c in g):
-                    return True
-        return False
-    # select-all paths: model + property
-    for k in (1, 2):
-        if depth_max < k:
-            continue
-        path = '/'.join('*' * k)
-        selected = [i for i, d, _, _ in eg.flat if d == k]
-        case = dict(base, api='iter_errors(path)', path=path)
-        ctx.case(case, bool(eg.errors), 'api:partial-all')
-        try:
-            got = run(path, ns)
-        except Exception as ex:  # noqa
-            ctx.failure('partial validation raised', case, {'exception': repr(ex),
-                                                            'wildcard on an ancestor level (C20-F2, fixed by d54abee)':
-                                                            wildcard_on_levels(selected)})
-            continue
-        want = expected_part(eg, selected)
-        npl = not all(doc.all_plain(i) for i in selected)
-        if k >= 2 and non_stateful(got) != want:
-            # C20-F4: with a `*` step before the last step the declaration is the first schema match of '/root/*/tag'
-            from xmlschema.validators import XsdElement
-            star = '/' + eg.res.root.tag + '/' + '/'.join('*' * k)
-            nonloc = []
-            for i in selected:
-                lk = schema.get_element(eg.node[i]['tag'], star)
-                g = eg.gov.get(i)
-                if not (lk is g or (isinstance(lk, XsdElement) and g is not None and lk.name == g.name and lk.type is g.type)):
-                    nonloc.append(i)
-            if nonloc:
-                ctx.known_hit('C20-F4')
-                ctx.count('star-lookup-nonlocal', len(nonloc))
-                continue
-        if non_stateful(got) != want:
-            detail = f3_explains(selected, got)
-            if detail is not None and known_match(case, detail):
-                ctx.known_hit('C20-F3')
-                ctx.count('partial-all:unscoped-xsi-type')
-                continue
-            detail = {'kind': 'partial', 'got': got, 'want': want, 'non_plain_step': npl}
-            fid = known_match(case, detail)
-            ctx.known_hit(fid) if fid else ctx.failure('errors of the selected parts differ from the matching part of the full result', case, detail)
-        # model (k = 1 uses the lazy driver's static lookup '/root/*' which is what get_element receives)
-        tb = C6.build_tables(eg, schema, static_of, created_of) if k == 1 else None
-        if tb is not None and not tb['alt_failed'] and not npl:
-            reqs.append({'op': 'part', 'tree': eg.tree, 'k': 1, 'root': tb['root'], 'segs': tb['segs'], 'govs': tb['govs'],
-                         'static': tb['static'], 'created': tb['created']})
-            pend.append(('part', case, {'got': non_stateful(got), 'table': tb['table']}, None))
-    # single elements: relative / absolute, with positions
-    cands = [i for i, d, _, _ in eg.flat if d >= 1 and eg.gov.get(i) is not None]
-    ctx.rng.shuffle(cands)
-    for nid in cands[:ctx.pick(4, 8)]:
-        form = ctx.rng.choice(['default', 'prefix', 'clark']) if spec.tns else 'clark'
-        absolute = ctx.rng.random() < 0.5
-        path, nsx = doc.spell(nid, form, True)
-        if not absolute:
-            path = path.split('/', 2)[2]
-        case = dict(base, api='iter_errors(path)', path=path, namespaces=nsx)
-        ctx.case(case, True, 'api:partial-one')
-        npl = not doc.all_plain(nid)
-        k, n = doc.position(nid)
-        pred_wild = False
+    # ---- the lookup of a path-driven run, by the rule of its fall-backs on schema.find
+    def lookups(self, path: str, namespaces: Any, selected: list[int]) -> dict:
+        from xmlschema.namespaces import NamespaceMapper
+        eg = self.eg
+        nsm = dict(NamespaceMapper(namespaces, source=eg.res).namespaces)
+        sp = abs_schema_path(eg.res.root.tag, path)
+        out = {}
+        for s_ in selected:
+            try:
+                out[s_] = port_get_element(self.schema, eg.node[s_]['tag'], sp, nsm)
+            except Exception as ex:  # noqa
+                out[s_] = ex
+        return out
+
+    def pred_wild(self, nid: int) -> bool:
+        from xmlschema.validators import XsdAnyElement
+        eg, doc = self.eg, self.doc
         for i in doc.chain(nid)[1:]:
             kk, nn = doc.position(i)
             pg = eg.gov.get(eg.parent[i])
             if kk > 1 and pg is not None and any(isinstance(c, XsdAnyElement) and c.is_matching(eg.node[i]['tag']) for c in pg):
-                pred_wild = True
+                return True
+        return False
+
+    def evaluate(self, case: dict, path: str, nsx: Any, selected: list[int], wild_path: bool, has_pos: bool,
+                 tag: str) -> Optional[list]:
+        """errors of `iter_errors(path=)` against the matching part of the full result; returns the errors"""
+        ctx, eg, doc = self.ctx, self.eg, self.doc
         try:
-            got = run(path, nsx)
+            got = self.run(path, nsx)
         except Exception as ex:  # noqa
-            ctx.failure('partial validation raised', case, {'exception': repr(ex),
-                                                            'wildcard on an ancestor level (C20-F2, fixed by d54abee)':
-                                                            wildcard_on_levels([nid])})
-            continue
-        want = expected_part(eg, [nid])
-        got_ns = non_stateful(got)
-        # a path that selects nothing on the schema yields one "doesn't select any element" error
-        if got_ns != want:
-            detail = f3_explains([nid], got)
-            if detail is not None and known_match(case, detail):
-                ctx.known_hit('C20-F3')
-                ctx.count('partial-one:unscoped-xsi-type')
+            ctx.failure('partial validation raised', case, {'exception': repr(ex)})
+            return None
+        truth = truth_part(eg, selected)
+        got_ns = non_stateful([c for _, c in got])
+        if got_ns == non_stateful([c for _, c, _ in truth]):
+            ctx.count(tag + ':same')
+            return got_ns
+        # what the current code does when the declaration found by the path is not the governing one
+        lk = self.lookups(path, nsx, selected)
+        pred: list = []
+        reasons: list = []
+        deviating: list = []
+        for s_ in selected:
+            d = lk[s_]
+            g = eg.gov.get(s_)
+            if not isinstance(d, Exception) and g is not None and gov_equal(d, g):
+                pred.extend(truth_part(eg, [s_]))
                 continue
-        if got_ns != want:
-            detail = {'kind': 'partial', 'got': got, 'want': want, 'non_plain_step': npl, 'predicate_meets_wildcard': pred_wild}
-            fid = known_match(case, detail)
-            ctx.known_hit(fid) if fid else ctx.failure('errors of the selected part differ from the matching part of the full result', case, detail)
-        else:
-            ctx.count('partial-one:same')
-        # decoded data of the part
+            deviating.append(s_)
+            if g is None or not doc.all_plain(s_) or (has_pos and self.pred_wild(s_)):
+                reasons.append('F1')
+            elif wild_path:
+                reasons.append('F4')
+            else:
+                reasons.append(None)
+            if isinstance(d, Exception):
+                continue
+            if d is None:
+                if XSI_TYPE not in eg.elem[s_].attrib:
+                    continue                    # the loop skips the element (schemas.py:1364-1369)
+                d = self.schema.builders.create_element(eg.node[s_]['tag'], self.schema)
+            try:
+                pred.extend((q, c, None) for q, c in errors_as(eg, eg.elem[s_], d, nsx))
+            except Exception:  # noqa
+                reasons[-1] = None
+        as_pred = got_ns == non_stateful([c for _, c, _ in pred])
+        detail = {'kind': 'partial', 'got': got_ns, 'want': non_stateful([c for _, c, _ in truth]),
+                  'deviating_lookups': [(s_, repr(lk[s_])[:80], repr(eg.gov.get(s_))[:80]) for s_ in deviating][:6],
+                  'reasons': reasons, 'as_predicted': as_pred,
+                  'predicted with these lookups': non_stateful([c for _, c, _ in pred]) if deviating else None}
+        fid = known_match(case, detail)
+        if fid:
+            ctx.known_hit(fid)
+            ctx.count(tag + ':' + fid)
+            return got_ns
+        f3 = self.f3_explains(selected, got, pred)
+        if f3 is not None and known_match(case, f3) and all(r is not None for r in reasons):
+            ctx.known_hit('C20-F3')
+            ctx.count(tag + ':unscoped-xsi-type')
+            return got_ns
+        if f3 is not None:
+            detail['scope (C20-F3)'] = {k_: f3[k_] for k_ in ('unscoped_type_nodes', 'same_outside')}
+        ctx.failure('errors of the selected part(s) differ from the matching part of the full result', case, detail)
+        return got_ns
+
+    def full(self) -> Any:
+        from xmlschema import XMLResource
+        if not self.full_done:
+            self.full_done = True
+            try:
+                self.full_data, _ = self.schema.decode(XMLResource(self.xml), validation='lax')
+            except Exception as ex:  # noqa
+                self.full_data = ex
+        return self.full_data
+
+    def evaluate_data(self, case: dict, path: str, nsx: Any, nid: int, wild_path: bool, has_pos: bool) -> None:
+        """decoded data of a single selected element against the matching part of the full data"""
+        from xmlschema import XMLResource
+        ctx, eg, doc = self.ctx, self.eg, self.doc
+        full = self.full()
+        if isinstance(full, Exception):
+            ctx.count('partial-decode:full-raises:' + type(full).__name__)
+            return
         try:
-            full, _ = schema.decode(XMLResource(xml), validation='lax')
-            part, _ = schema.decode(XMLResource(xml), validation='lax', path=path, namespaces=nsx)
+            part, _ = self.schema.decode(XMLResource(self.xml), validation='lax', path=path, namespaces=nsx)
         except Exception as ex:  # noqa
-            ctx.count('partial-decode:raises:' + type(ex).__name__)
-            continue
+            ctx.failure('partial decoding raised', case, {'exception': repr(ex)})
+            return
         sub = navigate(full, doc, nid)
         if sub is NOTFOUND:
             ctx.count('partial-decode:not-navigable')
-            continue
+            return
         try:
             a, b = norm_data(part), norm_data(sub)
         except Collision:
             ctx.count('partial-decode:prefix-collision')
-            continue
-        hit = unscoped([nid]) if a != b else []
+            return
+        if a == b and type(a) is type(b):
+            ctx.count('partial-decode:same')
+            return
+        hit = [i for i, _ in self.unscoped([nid])]
         if hit:
             # C20-F3 (what remains): the values of the elements whose xsi:type is not resolved are left out
             blanked = all(blank(a, doc, nid, j) and blank(b, doc, nid, j) for j in hit)
@@ -440,14 +649,100 @@ def check_partial(ctx: Ctx, spec, doc: Doc, xml: bytes, reqs: list, pend: list, 
             if known_match(case, detail):
                 ctx.known_hit('C20-F3')
                 ctx.count('partial-decode:unscoped-xsi-type' + ('' if blanked else ':not-located'))
-                continue
-        if a != b:
-            detail = {'kind': 'partial', 'part': repr(a)[:600], 'matching part of the whole': repr(b)[:600],
-                      'non_plain_step': npl, 'predicate_meets_wildcard': pred_wild}
-            fid = known_match(case, detail)
-            ctx.known_hit(fid) if fid else ctx.failure('decoded data of the selected part differs from the matching part of the full result', case, detail)
+                return
+        d = self.lookups(path, nsx, [nid])[nid]
+        g = eg.gov.get(nid)
+        reason = None
+        if isinstance(d, Exception) or not gov_equal(d, g):
+            if g is None or not doc.all_plain(nid) or (has_pos and self.pred_wild(nid)):
+                reason = 'F1'
+            elif wild_path:
+                reason = 'F4'
+        detail = {'kind': 'partial', 'part': repr(a)[:600], 'matching part of the whole': repr(b)[:600],
+                  'reasons': [reason] if reason else [], 'as_predicted': True,
+                  'lookup by the fall-back rule': repr(d)[:80], 'governing': repr(g)[:80]}
+        fid = known_match(case, detail)
+        if fid:
+            ctx.known_hit(fid)
+            ctx.count('partial-decode:' + fid)
         else:
-            ctx.count('partial-decode:same')
+            ctx.failure('decoded data of the selected part differs from the matching part of the full result', case, detail)
+
+    def one_form(self, nid: int, label: str, P: dict, form: str, data: bool = True) -> None:
+        """one generated path form that selects (at least) element nid"""
+        ctx, eg = self.ctx, self.eg
+        path, nsx = spell_path(P, form, bool(self.spec.tns))
+        case = dict(self.base, api='iter_errors(path)', path=path, namespaces=nsx, form=label)
+        ctx.case(case, True, 'api:partial-one')
+        ctx.count('path-form:' + label)
+        denoted = sel_eval(eg.tree, P)
+        try:
+            real = self.selection(path, nsx)
+        except Exception as ex:  # noqa
+            ctx.failure('resource.iterfind raised on a generated path', case, repr(ex))
+            return
+        if real != denoted:
+            detail = {'kind': 'selection', 'real': real, 'denoted': denoted}
+            fid = known_match(case, detail)
+            if fid:
+                ctx.known_hit(fid)
+            else:
+                ctx.failure('the path does not select the elements it denotes on the document', case, detail)
+            return
+        if nid not in denoted:
+            ctx.failure('harness: the generated path does not denote its element', case, {'denoted': denoted, 'nid': nid})
+            return
+        wild_path = any(ax == 'desc' or nm_ == '*' for ax, nm_, _ in P['steps'])
+        has_pos = any(ps is not None for _, _, ps in P['steps'])
+        self.evaluate(case, path, nsx, denoted, wild_path, has_pos, 'partial-one')
+        if data and len(denoted) == 1:
+            self.evaluate_data(dict(case, api='decode(path)'), path, nsx, nid, wild_path, has_pos)
+
+
+def check_partial(ctx: Ctx, spec, doc: Doc, xml: bytes, reqs: list, pend: list, base: dict,
+                  every: Optional[list] = None) -> None:
+    """`every`: elements for which all path forms are run (substitution family); else a sample"""
+    eg, schema = doc.eg, doc.schema
+    depth_max = max(eg.depth.values())
+    static_of, created_of = C6.static_lookup(schema, eg)
+    ns = {'': L.TNS} if spec.tns else None
+    pt = Partial(ctx, spec, doc, xml, base)
+    # select-all paths: model + property
+    for k in (1, 2):
+        if depth_max < k:
+            continue
+        path = '/'.join('*' * k)
+        selected = [i for i, d, _, _ in eg.flat if d == k]
+        case = dict(base, api='iter_errors(path)', path=path)
+        ctx.case(case, bool(eg.errors), 'api:partial-all')
+        got = pt.evaluate(case, path, ns, selected, True, False, 'partial-all')
+        if got is None:
+            continue
+        npl = not all(doc.all_plain(i) for i in selected)
+        # model (k = 1 uses the lazy driver's static lookup '/root/*' which is what get_element receives)
+        tb = C6.build_tables(eg, schema, static_of, created_of) if k == 1 else None
+        if tb is not None and not tb['alt_failed'] and not npl:
+            reqs.append({'op': 'part', 'tree': eg.tree, 'k': 1, 'root': tb['root'], 'segs': tb['segs'], 'govs': tb['govs'],
+                         'static': tb['static'], 'created': tb['created']})
+            pend.append(('part', case, {'got': got, 'table': tb['table']}, None))
+    # single elements in the generated path forms
+    forms3 = ['default', 'prefix', 'clark'] if spec.tns else ['clark']
+    if every is not None:
+        for nid in every:
+            for label, P in forms_for(doc, nid):
+                fs = forms3 if label in ('abs', 'rel', 'abs-pos') else [ctx.rng.choice(forms3)]
+                for form in fs:
+                    pt.one_form(nid, label, P, form)
+        return
+    cands = [i for i, d, _, _ in eg.flat if d >= 1 and eg.gov.get(i) is not None]
+    ctx.rng.shuffle(cands)
+    for nid in cands[:ctx.pick(4, 8)]:
+        fl = forms_for(doc, nid)
+        pick = ctx.rng.choice(['abs-pos', 'rel-pos'])
+        main_ = [f for f in fl if f[0] == pick]
+        other = [f for f in fl if f[0] not in ('abs-pos', 'rel-pos')]
+        for label, P in main_ + ctx.rng.sample(other, min(2, len(other))):
+            pt.one_form(nid, label, P, ctx.rng.choice(forms3), data=label in ('abs-pos', 'rel-pos') or ctx.rng.random() < 0.5)
 
 
 NOTFOUND = object()
@@ -525,6 +820,8 @@ def norm_data(x: Any, top: bool = True) -> Any:
             d[k2] = norm_data(v, False)
         if top and set(d) == {'$'}:
             return d['$']
+        if top and not d and x:
+            return None       # only namespace declarations: the (empty or undecodable) value itself is None
         return d
     if isinstance(x, list):
         return [norm_data(v, False) for v in x]
@@ -668,6 +965,175 @@ def family(ctx: Ctx, drv: Optional[Driver]) -> None:
 
 
 # ------------------------------------------------------------------------------------------------
+# substitution groups: members whose type differs from the head's (built-in restriction, facet restriction with
+# another decoded Python type, complex extension, complex restriction, another simple type under xs:anySimpleType),
+# used in place of a head that is referenced in local content models at depth 1..3, and selected by path in every
+# generated form.  The lookup must give the member's own global declaration; partial validation / decoding must
+# report the errors / data of the member's type (values valid for the head only are generated on purpose).
+
+SUBST_GROUPS = {
+    # head: (head type attr or inline, {member: (type attr | inline simpleType, ok values, head-only values)})
+    'h1': ('type="xs:int"', ['7', '300'], {
+        'm1': ('type="xs:short"', ['7', '-5'], ['70000', '40000']),
+        'n1': ('><xs:simpleType><xs:restriction base="xs:int"><xs:maxInclusive value="100"/></xs:restriction>'
+               '</xs:simpleType></xs:element>', ['7', '100'], ['250', '101'])}),
+    'h2': ('type="xs:decimal"', ['1.5', '12'], {
+        'm2': ('><xs:simpleType><xs:restriction base="xs:integer"><xs:minInclusive value="0"/>'
+               '<xs:maxInclusive value="100"/></xs:restriction></xs:simpleType></xs:element>', ['12', '0'], ['250', '1.5']),
+        'n2': ('type="xs:long"', ['12', '-3'], ['1.5', '0.25'])}),
+    'h4': ('type="xs:anySimpleType"', ['zz', '1'], {
+        'm4': ('type="xs:boolean"', ['true', '0'], ['zz', '7']),
+        'n4': ('type="xs:date"', ['2020-01-01'], ['zz', '2020-13-01'])}),
+}
+
+
+def gen_subst(rng) -> Any:
+    """-> (spec, xml bytes, ids of nothing yet): a schema with substitution groups and one document"""
+    spec = L.Spec()
+    spec.tns = rng.random() < 0.5
+    t = 't:' if spec.tns else ''
+    head = '<xs:schema xmlns:xs="http://www.w3.org/2001/XMLSchema"'
+    if spec.tns:
+        head += f' targetNamespace="{L.TNS}" xmlns:t="{L.TNS}" elementFormDefault="qualified"'
+    head += '>\n'
+    g = (f' <xs:complexType name="B"><xs:sequence><xs:element name="a" type="xs:int"/></xs:sequence>'
+         f'<xs:attribute name="k" type="xs:int"/></xs:complexType>\n'
+         f' <xs:complexType name="D"><xs:complexContent><xs:extension base="{t}B"><xs:sequence>'
+         f'<xs:element name="x" type="xs:int"/></xs:sequence></xs:extension></xs:complexContent></xs:complexType>\n'
+         f' <xs:complexType name="R"><xs:complexContent><xs:restriction base="{t}B"><xs:sequence>'
+         f'<xs:element name="a" type="xs:short"/></xs:sequence><xs:attribute name="k" type="xs:int" use="required"/>'
+         f'</xs:restriction></xs:complexContent></xs:complexType>\n')
+    abstract4 = rng.random() < 0.3
+    for h, (ht, _, members) in SUBST_GROUPS.items():
+        g += f' <xs:element name="{h}" {ht}{" abstract=\"true\"" if h == "h4" and abstract4 else ""}/>\n'
+        for m, (mt, _, _) in members.items():
+            g += (f' <xs:element name="{m}" substitutionGroup="{t}{h}" {mt}/>\n' if mt.startswith('type=')
+                  else f' <xs:element name="{m}" substitutionGroup="{t}{h}"{mt}\n')
+    g += (f' <xs:element name="h3" type="{t}B"/>\n <xs:element name="m3" type="{t}D" substitutionGroup="{t}h3"/>\n'
+          f' <xs:element name="n3" type="{t}R" substitutionGroup="{t}h3"/>\n')
+    heads = ['h1', 'h2', 'h3', 'h4']
+
+    # content: r( c1( e?, head+, d( head* )? ), c2( ... ) ... ) ; a local element with a member's NAME and another type
+    # sits in a container that does not reference that member's head (name-only lookups go wrong there)
+    def container(name: str, depth: int) -> tuple[str, dict]:
+        hs = rng.sample(heads, rng.choice([1, 1, 2]))
+        info = {'name': name, 'heads': hs, 'sub': None, 'clash': None, 'e': rng.random() < 0.5,
+                'occ': rng.choice([1, 2])}
+        ind = ' ' * (depth + 2)
+        x = f'{ind}<xs:element name="{name}"' + (' maxOccurs="2"' if info['occ'] == 2 else '') + '>\n'
+        x += f'{ind} <xs:complexType><xs:sequence>\n'
+        if info['e']:
+            x += f'{ind}  <xs:element name="e" type="xs:string" minOccurs="0"/>\n'
+        for h in hs:
+            x += f'{ind}  <xs:element ref="{t}{h}" maxOccurs="unbounded"/>\n'
+        others = [m for h in heads if h not in hs and h != 'h3' for m in SUBST_GROUPS[h][2]]
+        if others and rng.random() < 0.4:
+            info['clash'] = rng.choice(others)
+            x += f'{ind}  <xs:element name="{info["clash"]}" type="xs:string" minOccurs="0"/>\n'
+        if depth < 2 and rng.random() < 0.5:
+            sx, sinfo = container('d', depth + 1)
+            info['sub'] = sinfo
+            x += sx
+        x += f'{ind} </xs:sequence><xs:attribute name="k" type="xs:int"/></xs:complexType>\n{ind}</xs:element>\n'
+        return x, info
+    conts = []
+    body = ' <xs:element name="r">\n  <xs:complexType><xs:sequence>\n'
+    for nm_ in rng.sample(['c1', 'c2', 'c3'], rng.choice([1, 2, 2, 3])):
+        cx, ci = container(nm_, 1)
+        conts.append(ci)
+        body += cx
+    body += '  </xs:sequence></xs:complexType>\n </xs:element>\n'
+    spec.xsd = head + g + body + '</xs:schema>\n'
+
+    # the document
+    style = rng.choice(['default', 'prefix']) if spec.tns else 'plain'
+    pre = 't:' if style == 'prefix' else ''
+    perr = rng.choice([0.0, 0.3, 0.5])
+
+    def val(ok: list, headonly: list) -> str:
+        r = rng.random()
+        if headonly and r < perr:
+            return rng.choice(headonly)
+        if r > 0.97:
+            return 'q q'
+        return rng.choice(ok)
+
+    def occurrence(h: str) -> str:
+        if h == 'h3':
+            tag = rng.choice(['h3', 'm3', 'm3', 'n3'])
+            a_ = rng.choice(['1', '7', '70000' if rng.random() < perr else '2'])
+            k_ = f' k="{rng.choice([1, 2, 3])}"' if (tag == 'n3' and rng.random() > perr / 2) or rng.random() < 0.3 else ''
+            x_ = ''
+            if tag == 'm3' and rng.random() > perr / 2:
+                x_ = f'<{pre}x>{rng.choice(["1", "2", "zz" if rng.random() < perr else "3"])}</{pre}x>'
+            return f'<{pre}{tag}{k_}><{pre}a>{a_}</{pre}a>{x_}</{pre}{tag}>'
+        ht, hok, members = SUBST_GROUPS[h]
+        names = list(members) * 2 + ([] if (h == 'h4' and abstract4) else [h])
+        tag = rng.choice(names)
+        v = val(hok, []) if tag == h else val(members[tag][1], members[tag][2])
+        return f'<{pre}{tag}>{v}</{pre}{tag}>'
+
+    def inst(ci: dict) -> str:
+        out = ''
+        for _ in range(rng.randint(1, ci['occ'])):
+            k_ = f' k="{rng.choice([1, 2])}"' if rng.random() < 0.3 else ''
+            out += f'<{pre}{ci["name"]}{k_}>'
+            if ci['e'] and rng.random() < 0.6:
+                out += f'<{pre}e>s</{pre}e>'
+            for h in ci['heads']:
+                for _ in range(rng.choice([1, 2, 2, 3])):
+                    out += occurrence(h)
+            if ci['clash'] and rng.random() < 0.7:
+                out += f'<{pre}{ci["clash"]}>text</{pre}{ci["clash"]}>'
+            if ci['sub']:
+                out += inst(ci['sub'])
+            out += f'</{pre}{ci["name"]}>'
+        return out
+    decl = {'default': f' xmlns="{L.TNS}"', 'prefix': f' xmlns:t="{L.TNS}"', 'plain': ''}[style]
+    xml = f'<{pre}r{decl}>' + ''.join(inst(c) for c in conts) + f'</{pre}r>'
+    return spec, xml.encode()
+
+
+def subst_family(ctx: Ctx, drv: Optional[Driver], n_schemas: Optional[int] = None) -> None:
+    from xmlschema.validators import XsdElement
+    n_schemas = n_schemas or ctx.pick(36, 400)
+    for _ in range(n_schemas):
+        spec, xml = gen_subst(ctx.rng)
+        try:
+            schema = L.build_schema(spec)
+        except Exception as ex:  # noqa
+            ctx.count('subst-schema-rejected:' + type(ex).__name__)
+            continue
+        base = {'family': 'substitution', 'xsd': spec.xsd, 'xml': xml.decode()}
+        try:
+            doc = Doc(schema, spec, xml)
+        except Exception as ex:  # noqa
+            ctx.count('subst-full-run-raises:' + type(ex).__name__)
+            continue
+        eg = doc.eg
+        ctx.count('subst-document:%s' % ('valid' if not eg.errors else 'invalid'))
+        reqs: list = []
+        pend: list = []
+        check_find(ctx, spec, doc, reqs, pend, base)
+        # the members (the head's declaration is referenced by the parent's content model, the element is governed by
+        # the member's own global declaration) and a few other elements
+        members = []
+        for nid, depth, parent, node in eg.flat:
+            g = eg.gov.get(nid)
+            pg = eg.gov.get(parent) if parent is not None else None
+            if g is None or pg is None:
+                continue
+            if any(isinstance(c, XsdElement) and c.name != node['tag'] and node['tag'] in (c.substitutes or ()) for c in pg):
+                members.append(nid)
+                ctx.count('subst-member:' + local(node['tag']) + (':own-error' if nid in eg.owner else ''))
+        ctx.rng.shuffle(members)
+        others = [i for i, d, _, _ in eg.flat if d >= 1 and i not in members and eg.gov.get(i) is not None]
+        ctx.rng.shuffle(others)
+        check_partial(ctx, spec, doc, xml, reqs, pend, base, every=members[:ctx.pick(5, 8)] + others[:2])
+        compare(ctx, reqs, pend, drv)
+
+
+# ------------------------------------------------------------------------------------------------
 # the same path strings on documents of different namespaces, interleaved in one process: a path denotes
 # element names only together with the namespace map it is used with (prefix -> URI, default namespace)
 TWIN_XSD = '''<xs:schema xmlns:xs="http://www.w3.org/2001/XMLSchema" targetNamespace="{ns}" xmlns:t="{ns}"
@@ -708,7 +1174,15 @@ def twin_namespaces(ctx: Ctx) -> None:
                     jobs.append((ns, bname, sname, xml, path_tpl.format(p=pre)))
     ctx.rng.shuffle(jobs)
     for ns, bname, sname, xml, path in jobs[:ctx.pick(220, 10 ** 6)]:
-        schema = schemas[ns]
+        twin_one(ctx, ns, bname, sname, xml, path, schemas[ns])
+
+
+def twin_one(ctx: Ctx, ns: str, bname: str, sname: str, xml: str, path: str, schema: Any = None) -> None:
+    import xmlschema
+    from xml.etree import ElementTree as ET
+    if schema is None:
+        schema = xmlschema.XMLSchema(TWIN_XSD.format(ns=ns))
+    if True:
         case = {'family': 'twin-namespaces', 'ns': ns, 'doc': bname, 'style': sname, 'path': path, 'xml': xml}
         ctx.case(case, True, tag='twin/' + sname)
         root = ET.fromstring(xml)
@@ -755,7 +1229,7 @@ def twin_namespaces(ctx: Ctx) -> None:
             valid = schema.is_valid(xml, path=path, namespaces=nsmap)
         except Exception as ex:   # noqa
             ctx.failure('path-selected validation raised', case, {'error': type(ex).__name__, 'msg': str(ex)[:200]})
-            continue
+            return
         if cur and not any('IDREF' in x or 'key' in x for x in exp + got):
             if sorted(got) != sorted(exp) or valid != (not exp):
                 ctx.failure('validating only the part selected by a path differs from the full result for that part',
@@ -768,7 +1242,8 @@ def norm_reason(e: Any) -> str:
     return re.sub(r' at 0x[0-9a-f]+', '', str(e.reason or ''))[:120]
 
 
-def run_one(ctx: Ctx, drv: Optional[Driver], xsd: str, xml: bytes) -> None:
+def run_one(ctx: Ctx, drv: Optional[Driver], xsd: str, xml: bytes, only: Optional[dict] = None) -> None:
+    """all the checks of one (schema, document); `only` = a stored case: its own path is evaluated first"""
     import xmlschema
     schema = xmlschema.XMLSchema(xsd)
     spec = L.Spec()
@@ -777,9 +1252,27 @@ def run_one(ctx: Ctx, drv: Optional[Driver], xsd: str, xml: bytes) -> None:
     reqs: list = []
     pend: list = []
     base = {'xsd': xsd, 'xml': xml.decode()}
+    if only and only.get('family'):
+        base = dict(base, family=only['family'])
     doc = Doc(schema, spec, xml)
+    if only and only.get('path') and str(only.get('api', '')).startswith(('iter_errors', 'decode')):
+        # the stored path itself, as it was spelled
+        pt = Partial(ctx, spec, doc, xml, base)
+        path, nsx = only['path'], only.get('namespaces')
+        case = dict(base, api=only['api'], path=path, namespaces=nsx, form=only.get('form'))
+        try:
+            sel = pt.selection(path, nsx)
+            wild = '*' in path or '//' in path
+            pt.evaluate(case, path, nsx, sel, wild, '[' in path, 'replay')
+            if len(sel) == 1 and sel[0] > 0:
+                pt.evaluate_data(dict(case, api='decode(path)'), path, nsx, sel[0], wild, '[' in path)
+        except Exception as ex:  # noqa
+            ctx.failure('path-driven run raised', case, repr(ex))
     check_find(ctx, spec, doc, reqs, pend, base)
-    check_partial(ctx, spec, doc, xml, reqs, pend, base)
+    every = None
+    if base.get('family') == 'substitution':
+        every = [i for i, d, _, _ in doc.eg.flat if d >= 1 and doc.eg.gov.get(i) is not None]
+    check_partial(ctx, spec, doc, xml, reqs, pend, base, every=every)
     check_depth(ctx, spec, doc, xml, reqs, pend, base)
     compare(ctx, reqs, pend, drv)
 
@@ -793,6 +1286,7 @@ def run(ctx: Ctx, driver_ok: bool) -> None:
             obj = json.loads(f.read_text())
             run_one(ctx, drv, obj['xsd'], obj['xml'].encode())
     twin_namespaces(ctx)
+    subst_family(ctx, drv)
     family(ctx, drv)
 
 
@@ -801,22 +1295,41 @@ def search(ctx: Ctx) -> None:
         saved = ctx.tier
         ctx.tier = 'thorough'
         try:
-            family(ctx, None)
+            subst_family(ctx, None)
+            if not ctx.failures:
+                family(ctx, None)
         finally:
             ctx.tier = saved
 
 
+def replay_case(ctx: Ctx, drv: Optional[Driver], case: dict) -> bool:
+    if not case or 'xsd' not in case:
+        if case and case.get('family') == 'twin-namespaces':
+            twin_one(ctx, case['ns'], case['doc'], case['style'], case['xml'], case['path'])
+            return True
+        return False
+    run_one(ctx, drv, case['xsd'], case['xml'].encode(), only=case)
+    return True
+
+
 def replay(ctx: Ctx, obj: dict) -> int:
     print(json.dumps(obj, indent=1)[:6000])
-    case = obj.get('input')
-    if not case or 'xsd' not in case:
-        return 0
     ctx.known = list(ctx.known) + [e for e in load_findings() if e.get('property') == 'C20']
     drv = Driver('drv_c20') if Path(Driver('drv_c20').path).exists() else None
-    run_one(ctx, drv, case['xsd'], case['xml'].encode())
+    cases = [obj.get('input')] if obj.get('input') else [m.get('case') for m in obj.get('first_mismatches', [])]
+    ran = [replay_case(ctx, drv, c) for c in cases]
+    if not any(ran):
+        print('nothing to replay (no stored input)')
+        return 0
     for m in ctx.mismatches[:3]:
         print('MODEL != IMPLEMENTATION:', m['correspondence'], 'impl=', m['impl'], 'model=', m['model'])
     for f in ctx.failures[:5]:
         print('FAILS ON THE REAL CODE:', f['what'], json.dumps(f['case'].get('path')), json.dumps(f['detail'], default=str)[:1500])
-    print('known findings matched:', ctx.known_hits)
+    status = {e['id']: e.get('status') for e in ctx.known}
+    for fid, n in sorted(ctx.known_hits.items()):
+        what = next((e['what'] for e in ctx.known if e['id'] == fid), '')
+        print(f'KNOWN-FINDING: property=C20 {fid} (status {status.get(fid)}) matched by {n} case(s) of this input: {what[:200]}')
+    if not ctx.failures and not ctx.mismatches:
+        print('REPLAY: the stored input does not fail on this tree' +
+              (' beyond the listed known finding(s) above' if ctx.known_hits else ''))
     return 1 if ctx.failures else 0
